@@ -204,8 +204,10 @@ var otherJSON = []string{`null`, `true`, `false`, `0`, `1`, `-1.5e3`, `"str"`, `
 	`{"ver":1,"prins":null}`, `[{"ver":1}]`, ` {"ver":1} `, `{"ver":1}x`, `{"ver":1,}`, `{ver:1}`, `{"a":{"b":[1,{"c":null}]}}`, ``, ` `, `nul`, `{"ver":01}`, `{"ver":1e400}`, `{"x":1e400,"ver":1}`}
 
 func genKeyid(g *hx.Gen, out *hx.Out) {
-	touches := []int64{-1, 0, 1, 2, 3, 4, 1 << 31, -1 << 63, 1<<63 - 1}
-	usages := []int64{0, 1, 7, -1}
+	// the meaningful values, their neighbours, and "wrap-around twins": values that equal a
+	// meaningful one modulo 2^4, 2^8, 2^16, 2^32 (a narrowing conversion or a mask turns them into it)
+	touches := []int64{-1, 0, 1, 2, 3, 4, 1 << 31, -1 << 63, 1<<63 - 1, 17, 257, 65537, 1<<32 + 1, -15, -255, 1<<32 + 2, 19, 1 << 32}
+	usages := []int64{0, 1, 7, -1, 256, 1 << 32}
 	vers := []uint16{1, 1, 1, 0, 2, 65535}
 	n := 0
 	// the whole attribute grid, strings random
@@ -379,7 +381,7 @@ func genCertType(g *hx.Gen, out *hx.Out) {
 	crits := []string{"nil", "map:", "map:" + host + "=-", "map:" + host + "=" + hx.HexS("h1,h2"), "map:" + hx.HexS("force-command") + "=" + hx.HexS("ls")}
 	prinsSets := [][]string{{}, {"alice"}, {"alice", "bob"}, {"", "a:b", "日本"}}
 	emit("", "nil", []string{"a"}, true)
-	touches := []int64{-1, 0, 1, 2, 3, 4, 1 << 31}
+	touches := []int64{-1, 0, 1, 2, 3, 4, 1 << 31, 17, 18, 19, 257, 258, 259, 65537, 1<<32 + 1, 1<<32 + 2, 1<<32 + 3, -15, -14, -13, 1 << 32}
 	for flags := 0; flags < 16; flags++ {
 		for _, t := range touches {
 			for ci, crit := range crits {
